@@ -1,5 +1,6 @@
 """C01 -- slim and native forms are exact, order-preserving inverses under any mask."""
 import itertools
+import os
 import numpy as np
 from harness.common import cz, cnat, cbool, clist, ctup, import_aa
 
@@ -28,12 +29,19 @@ EXHAUSTIVE = {
     "thorough": "util level: H*W <= 14; class level: H*W <= 12; 1-D: length <= 12; histories: two per mask, H*W <= 10 (1-D: length <= 10)",
 }
 TRUSTED = ["hand-written Gallina model coq/Model/C01.v of array_2d_util / grid_2d_util / array_1d_util / mask_2d_util / mask_1d_util "
-           "conversion loops, tied to /repo by this correspondence run (comparison evaluated inside Coq by vm_compute)",
+           "conversion loops, of the .slim / .native accessors (re-construction from the object's current stored array) and of the "
+           "history steps (to_new_array arithmetic, with_new_array, element assignment, copy, Mask2D edits), tied to /repo by this "
+           "correspondence run (comparison evaluated inside Coq by vm_compute)",
            "numpy element assignment / np.zeros / np.stack semantics (lists of lists in the model)",
-           "values are modelled polymorphically: the code performs no arithmetic on them except `*= invert(mask)` (modelled as "
-           "replacement by zero; differs from IEEE only for inf/NaN inputs at masked positions: nan*0 = nan)"]
-ASSUMPTIONS = ["finite real values (no inf/NaN at masked positions of native inputs)",
-               "complex / over-sampled variants are not modelled"]
+           "values are modelled polymorphically: the code performs no arithmetic on them except zeroing the masked entries of a "
+           "native input (assignment of 0; inf / NaN at masked entries are part of the input streams)",
+           "Python-level relations (py_ok): every reading taken twice, objects re-read at the end of a history, the caller's arrays "
+           "compared with copies taken before the call, `.array` of a constructed object = the form it was asked to store"]
+ASSUMPTIONS = ["values at UNMASKED pixels are finite reals (inf / NaN only at masked entries)",
+               "complex / over-sampled variants are not modelled",
+               "default configuration (general.structures.native_binned_only = false)",
+               "Grid2D / VectorYX2D / Grid1D with inf / NaN at masked entries: behaviour after fixes/C01_grid_nonfinite_masked.diff "
+               "(C01_NONFINITE_GRIDS=0 leaves these inputs out)"]
 
 def shapes_upto(n):
     return [(h, w) for h in range(1, n + 1) for w in range(1, n + 1) if h * w <= n]
@@ -50,20 +58,32 @@ def vals(h, w, k):
 
 SCALES = [0, 0, -40, 40]            # values are multiplied by 2**e (exact in binary floating point) and divided back
 KINDS = ["array", "grid", "vector"]
+# inf / NaN at MASKED entries of native inputs and of natively stored arrays.  Arrays: repaired in /repo e8113b3.  Grids / vector
+# fields / 1-D grids: repaired by fixes/C01_grid_nonfinite_masked.diff (pending); C01_NONFINITE_GRIDS=0 models the unrepaired code.
+NONFINITE_GRIDS = os.environ.get("C01_NONFINITE_GRIDS", "1") != "0"
 FORMS = [0, 0, 0, 1, 2, 3]          # entry form of the mask / of the values: see make_mask / give
 AFF = ["add", "radd", "sub", "rsub", "mul", "rmul", "neg", "copy"]
 
 def unmasked(m): return [(y, x) for y, r in enumerate(m) for x, b in enumerate(r) if not b]
 def masked(m): return [(y, x) for y, r in enumerate(m) for x, b in enumerate(r) if b]
 
-def gen_ops(rng, m, sn, two_planes, n_ops=None):
+def gen_ops(rng, m, sn, two_planes, n_ops=None, nonfinite=True):
     """a random history of an object on mask m (list of rows); tracks which form is stored for the in-place assignments"""
     um, mk = unmasked(m), masked(m)
     is_native = sn
     ops = []
     for _ in range(n_ops or rng.choice([2, 3, 3, 4])):
-        c = rng.choice(["aff"] * 7 + ["native"] * 3 + ["slim"] * 2 + ["new"] * 2 + ["build"] * 2 + ["set"] * 4)
-        if c == "aff":
+        c = rng.choice(["aff"] * 7 + ["native"] * 3 + ["slim"] * 2 + ["new"] * 2 + ["build"] * 2 + ["set"] * 4 + ["nf"] * 3)
+        if c == "nf" and not nonfinite: c = "aff"
+        if c == "nf":
+            # steps that put inf / NaN into MASKED entries of a natively stored array (never into an unmasked one)
+            kind = rng.choice(["divself", "newnf", "setnf"])
+            if kind == "setnf" and not (is_native and mk): kind = "divself"
+            if kind == "divself": ops.append(["nf", "divself"])
+            elif kind == "newnf": ops.append(["nf", "newnf", rng.randint(0, 9)]); is_native = True
+            else:
+                y, x = rng.choice(mk); ops.append(["nf", "setnf", y, x, rng.choice(["inf", "-inf", "nan"])])
+        elif c == "aff":
             kind = rng.choice(AFF)
             cst = rng.choice([5, 5, -3, 2, 1, 7])
             if kind in ("mul", "rmul"): cst = rng.choice([2, -1, 3, 0])
@@ -121,7 +141,7 @@ def gen_inputs(tier, rng):
             if all(all(r) for r in m): continue
             i += 1
             yield {"op": KINDS[i % 3], "m": m, "ni": bool(i & 1), "sn": bool(i & 2), "k": (i >> 2) % 4, "e": SCALES[(i >> 4) % 4],
-                   "mt": (i // 3) % 4, "vt": (i // 5) % 4}
+                   "mt": (i // 3) % 4, "vt": (i // 5) % 4, "nf": (i // 7) % 3 == 0 and (i % 3 == 0 or NONFINITE_GRIDS)}
             if big or i % 5 == 0:
                 yield {"op": "array", "m": m, "ni": not bool(i & 1), "sn": not bool(i & 2), "k": 1}
     for n in range(1, n1 + 1):
@@ -129,7 +149,7 @@ def gen_inputs(tier, rng):
             if all(bits): continue
             i += 1
             yield {"op": "array1d" if i % 3 else "grid1d", "r": list(bits), "ni": bool(i & 1), "sn": bool(i & 2), "e": SCALES[(i >> 2) % 4],
-                   "mt": (i // 3) % 4, "vt": (i // 5) % 4}
+                   "mt": (i // 3) % 4, "vt": (i // 5) % 4, "nf": (i // 7) % 3 == 0 and (i % 3 != 0 or NONFINITE_GRIDS)}
             yield {"op": "array1d", "r": list(bits), "ni": not bool(i & 1), "sn": bool(i & 4)}
     # ---- histories (phase 2): quick = every mask with H*W <= 6 gets an object history AND a mask history, the masks with
     #      H*W in {7, 8} get one of the two (alternating); thorough = two of each for every mask with H*W <= 10
@@ -143,17 +163,17 @@ def gen_inputs(tier, rng):
                 if both or i % 2 == 0:
                     cls = rng.choice(hk); sn = rng.random() < 0.6
                     yield {"op": "hist", "cls": cls, "m": m, "ni": rng.random() < 0.5, "sn": sn, "k": rng.randrange(4), "e": rng.choice(SCALES),
-                           "mt": rng.choice(FORMS), "vt": rng.choice(FORMS), "ops": gen_ops(rng, m, sn, cls != "array")}
+                           "mt": rng.choice(FORMS), "vt": rng.choice(FORMS), "ops": gen_ops(rng, m, sn, cls != "array", nonfinite=cls == "array" or NONFINITE_GRIDS)}
                 if both or i % 2 == 1:
                     yield {"op": "maskhist", "m": m, "ops": gen_mops(rng, m)}
     for n in range(1, nh + 1):
         for bits in itertools.product([False, True], repeat=n):
             if all(bits): continue
             i += 1
-            sn = rng.random() < 0.6
-            yield {"op": "hist", "cls": "array1d" if i % 3 else "grid1d", "m": [list(bits)], "ni": rng.random() < 0.5, "sn": sn,
+            sn = rng.random() < 0.6; c1 = "array1d" if i % 3 else "grid1d"
+            yield {"op": "hist", "cls": c1, "m": [list(bits)], "ni": rng.random() < 0.5, "sn": sn,
                    "k": rng.randrange(4), "e": rng.choice(SCALES), "mt": rng.choice(FORMS), "vt": rng.choice(FORMS),
-                   "ops": gen_ops(rng, [list(bits)], sn, False)}
+                   "ops": gen_ops(rng, [list(bits)], sn, False, nonfinite=c1 == "array1d" or NONFINITE_GRIDS)}
     for _ in range(1500 if big else 150):
         h, w = rng.randint(3, 12), rng.randint(3, 12)
         p = rng.choice([0.1, 0.3, 0.5, 0.8])
@@ -165,7 +185,7 @@ def gen_inputs(tier, rng):
         if not big and _ % 3: continue
         sn = rng.random() < 0.6; cls = rng.choice(hk)
         yield {"op": "hist", "cls": cls, "m": m, "ni": rng.random() < 0.5, "sn": sn, "k": rng.randint(0, 3), "e": rng.choice(SCALES),
-               "mt": rng.choice(FORMS), "vt": rng.choice(FORMS), "ops": gen_ops(rng, m, sn, cls != "array")}
+               "mt": rng.choice(FORMS), "vt": rng.choice(FORMS), "ops": gen_ops(rng, m, sn, cls != "array", nonfinite=cls == "array" or NONFINITE_GRIDS)}
         yield {"op": "maskhist", "m": m, "ops": gen_mops(rng, m)}
 
 def cmask(m): return clist([clist([cbool(b) for b in r]) for r in m])
@@ -176,6 +196,7 @@ def ints2(a): return [[int(round(float(x))) for x in r] for r in np.asarray(a)]
 
 def exact(a):
     a = np.asarray(a, dtype=float)
+    if not np.all(np.isfinite(a)): raise AssertionError("inf / NaN in a form read from the implementation (masked entries must read 0)")
     if not np.all(a == np.round(a)): raise AssertionError("non-integer value in implementation output")
 
 def descale(a, sc):
@@ -189,7 +210,7 @@ class Checks:
     def __init__(self): self.bad = []
     def same(self, what, a, b):
         a, b = np.asarray(a), np.asarray(b)
-        if a.shape != b.shape or not np.array_equal(a, b): self.bad.append(what)
+        if a.shape != b.shape or not np.array_equal(a, b, equal_nan=a.dtype.kind == "f" and b.dtype.kind == "f"): self.bad.append(what)
     def result(self, r):
         if self.bad:
             r["py_ok"] = False; r["detail"] = "; ".join(self.bad[:6])
@@ -210,6 +231,12 @@ def give(values, vt, exact_scale, build_other):
     if vt == 1: return values.tolist()
     if vt == 2 and exact_scale: return values.astype(int)
     if vt == 3: return build_other(values)
+    return values
+
+def poison(values, ma):
+    """inf / NaN at the masked entries of a native input (float): the forms read from the object must not depend on them"""
+    bad = [np.inf, np.nan, -np.inf]
+    for j, idx in enumerate(zip(*np.nonzero(ma))): values[idx] = bad[j % 3]
     return values
 
 def stored_ok(chk, obj, sn, slim_read, native_read, what):
@@ -292,6 +319,34 @@ def run_hist(aa, inp):
             if type(new) is not type(obj): raise AssertionError(f"{kind} returned a {type(new).__name__}")
             obj = new
             for q in range(planes): zops[q].append(f"(ZAff {cz(ab[q][0])} {cz(ab[q][1])})")
+        elif op[0] == "nf" and op[1] == "divself":
+            # arr / arr: 1 at every unmasked pixel, 0/0 = NaN at the (zero) masked pixels of a natively stored array;
+            # only when no unmasked value is zero, else a plain copy
+            if all(v != 0 for o in outs[-1] for v in o[0]):
+                with np.errstate(all="ignore"): obj = (obj / obj) * sc
+                ab = (0, 1)
+            else: obj = obj.copy(); ab = (1, 0)
+            for q in range(planes): zops[q].append(f"(ZAff {cz(ab[0])} {cz(ab[1])})")
+        elif op[0] == "nf" and op[1] == "newnf":
+            t = op[2]
+            rn = [raw_native(h, w, t, q) for q in range(planes)]; rs = [raw_slim(cnt, t, q) for q in range(planes)]
+            raw = as_values(True, rn, rs)
+            bad = [np.inf, np.nan, -np.inf]
+            for j, (y, x) in enumerate(masked(m)):
+                if one_d: raw[x] = bad[j % 3]
+                else: raw[y, x] = bad[j % 3]
+            obj = obj.with_new_array(raw); is_native = True
+            # the masked entries of the raw array are printed as finite placeholders: the model's readings do not depend on them
+            for q in range(planes): zops[q].append(f"(ZNew true {cgrid(rn[q])} {cvec(rs[q])})")
+        elif op[0] == "nf" and op[1] == "setnf":
+            _, _, y, x, v = op
+            older = []
+            if not edited: caller_arrays()
+            edited = True
+            fv = float(v) if np.asarray(obj.array).dtype.kind == "f" else 12345      # an integer array cannot hold inf
+            if one_d: obj[x] = fv
+            else: obj[y, x] = fv
+            for q in range(planes): zops[q].append(f"(ZSet 0%nat {cnat(y)} {cnat(x)} 0)")
         elif op[0] in ("native", "slim"):
             obj = obj.native if op[0] == "native" else obj.slim
             is_native = op[0] == "native"
@@ -326,7 +381,8 @@ def run_hist(aa, inp):
             else: obj[ks] = val
             for q in range(planes): zops[q].append(f"(ZSet {cnat(ks)} {cnat(y)} {cnat(x)} {cz(vs[q])})")
         else: raise ValueError(op)
-        outs.append(read(obj, stored=is_native if op[0] in ("native", "slim", "build") else None))
+        with np.errstate(all="ignore"):
+            outs.append(read(obj, stored=is_native if op[0] in ("native", "slim", "build") else None))
         older.append((obj, outs[-1]))
     # objects created along the way, read again at the end
     for j, (o, exp) in enumerate(older):
@@ -417,9 +473,11 @@ def run_case(inp):
         ra = np.array(r)
         mask = make_mask(aa, ra, inp.get("mt", 0), one_d=True)
         values = np.array(native if inp["ni"] else slim_in, dtype=float) * sc
+        nf = bool(inp.get("nf")) and inp["ni"]
+        if nf: poison(values, ra)
         values0 = values.copy()
         cls = aa.Array1D if op == "array1d" else aa.Grid1D
-        obj = cls(values=give(values, inp.get("vt", 0), sc == 1.0, lambda v: cls(values=v, mask=mask, store_native=not inp["sn"])),
+        obj = cls(values=give(values, inp.get("vt", 0), sc == 1.0 and not nf, lambda v: cls(values=v, mask=mask, store_native=not inp["sn"])),
                   mask=mask, store_native=inp["sn"])
         stored_ok(chk, obj, inp["sn"], obj.slim, obj.native, op)
         os_, on_ = descale(obj.slim, sc), descale(obj.native, sc)
@@ -459,10 +517,12 @@ def run_case(inp):
         return chk.result({"coq": cases[0], "extra_coq": cases[1:], "out": out, "kind": "util", "nontrivial": nontrivial})
     mask = make_mask(aa, ma, inp.get("mt", 0))
     ni, sn = inp["ni"], inp["sn"]; vt = inp.get("vt", 0)
+    nf = bool(inp.get("nf")) and ni
     if op == "array":
         values = np.array(native if ni else slim, dtype=float) * sc
+        if nf: poison(values, ma)
         values0 = values.copy()
-        obj = aa.Array2D(values=give(values, vt, sc == 1.0, lambda v: aa.Array2D(values=v, mask=mask, store_native=not sn)),
+        obj = aa.Array2D(values=give(values, vt, sc == 1.0 and not nf, lambda v: aa.Array2D(values=v, mask=mask, store_native=not sn)),
                          mask=mask, store_native=sn)
         stored_ok(chk, obj, sn, obj.slim, obj.native, op)
         os_, on_ = descale(obj.slim, sc), descale(obj.native, sc)
@@ -485,14 +545,15 @@ def run_case(inp):
     sy = slim; sx = [7 - v for v in slim]
     if ni: values = np.stack([np.array(ny, dtype=float), np.array(nx, dtype=float)], axis=-1) * sc
     else: values = np.stack([np.array(sy, dtype=float), np.array(sx, dtype=float)], axis=-1).reshape(-1, 2) * sc
+    if nf: poison(values, ma)
     values0 = values.copy()
     if op == "grid":
-        obj = aa.Grid2D(values=give(values, vt, sc == 1.0, lambda v: aa.Grid2D(values=v, mask=mask, store_native=not sn)),
+        obj = aa.Grid2D(values=give(values, vt, sc == 1.0 and not nf, lambda v: aa.Grid2D(values=v, mask=mask, store_native=not sn)),
                         mask=mask, store_native=sn)
     else:
         g = aa.Grid2D.from_mask(mask=mask)
         gg = g.native if ni else g
-        obj = aa.VectorYX2D(values=give(values, vt, sc == 1.0,
+        obj = aa.VectorYX2D(values=give(values, vt, sc == 1.0 and not nf,
                                         lambda v: aa.VectorYX2D(values=v, grid=gg, mask=mask, store_native=not sn)),
                             grid=gg, mask=mask, store_native=sn)
     stored_ok(chk, obj, sn, obj.slim, obj.native, op)
